@@ -15,6 +15,7 @@ import (
 
 	"github.com/verily-src/fhirpath-go/fhirpath"
 	"github.com/verily-src/fhirpath-go/fhirpath/evalopts"
+	"github.com/verily-src/fhirpath-go/fhirpath/internal/expr"
 	"github.com/verily-src/fhirpath-go/fhirpath/system"
 	"github.com/verily-src/fhirpath-go/internal/fhir"
 	"google.golang.org/protobuf/proto"
@@ -350,6 +351,81 @@ func runC17(c *Ctx) {
 				_, pan, _ := safeErr(func() error { _, berr = h.call(e, bad...); return nil })
 				c.Law(!pan && berr != nil, "C17/failing-option-ignored", "if any option fails Evaluate returns that error", h.name+" with "+what, fmt.Sprint(berr))
 			}
+		}
+	}
+	// an unknown variable is an evaluation error wherever it is evaluated — on either side of every operator, whatever
+	// the other operand is (the empty collection included), at the root, in arguments and in criteria over items;
+	// a custom function's error comes through from the same positions
+	{
+		in := []fhir.Resource{mustResource(`{"resourceType":"Patient","id":"p1","name":[{"given":["a"]},{"given":["b"],"family":"F"}]}`)}
+		boom := func(c system.Collection) (system.Collection, error) { return nil, errors.New("boom") }
+		for _, op := range []string{"=", "!=", "<", "<=", ">", ">=", "+", "-", "*", "/", "div", "mod", "&", "and", "or", "xor", "implies"} {
+			for _, t := range []string{"{} %s X", "X %s {}", "false %s X", "true %s X", "X %s true", "1 %s X", "Patient.name.where(family %s X)", "Patient.name.select(family %s X)", "Patient.name.exists(family %s X)",
+				"Patient.name.where(X %s family)", "Patient.name.first().select(family %s X)", "Patient.name.all(family %s X)", "Patient.photo.url %s X", "(Patient.name.family %s X).exists()"} {
+				for _, x := range []string{"%nope", "boom()"} {
+					src := strings.ReplaceAll(fmt.Sprintf(t, op), "X", x)
+					o := safeEval(func() (system.Collection, error) {
+						e, err := fhirpath.Compile(src, fhirpath.WithFunction("boom", boom))
+						if err != nil {
+							return nil, fmt.Errorf("compile: %w", err)
+						}
+						return e.Evaluate(in)
+					})
+					if o.Err != nil && strings.HasPrefix(o.Err.Error(), "compile:") {
+						continue
+					}
+					c.Observe("unknown-variable "+src, true)
+					if x == "%nope" {
+						c.Law(!o.Panicked && o.Err != nil && errors.Is(o.Err, expr.ErrConstantNotFound), "C17/unknown-variable", "an unknown variable is an evaluation error", src, canonOutcome(o, nil))
+					} else {
+						c.Law(!o.Panicked && o.Err != nil && strings.Contains(o.Err.Error(), "boom"), "C17/custom-error", "the error a custom function returns is passed through", src, canonOutcome(o, nil))
+					}
+				}
+			}
+		}
+		// the FHIR-defined names are ordinary names here: supplied, they are the supplied value; not supplied, unknown
+		for _, name := range []string{"resource", "rootResource", "resources", "Context", "sct", "loinc", "vs-x", "ext-y"} {
+			ref := "%" + name
+			if strings.Contains(name, "-") {
+				ref = "%`" + name + "`"
+			}
+			for _, src := range []string{ref, "Patient.name.select(" + ref + ")", "Patient.name.where(" + ref + " = 'v')", "(1).select(" + ref + " & 'x')"} {
+				e, err := fhirpath.Compile(src)
+				if err != nil {
+					continue
+				}
+				o := safeEval(func() (system.Collection, error) { return e.Evaluate(in) })
+				c.Observe("fhir-defined name "+src, true)
+				c.Law(!o.Panicked && o.Err != nil && errors.Is(o.Err, expr.ErrConstantNotFound), "C17/unknown-variable", "an unknown variable is an evaluation error", src+" without the variable", canonOutcome(o, nil))
+			}
+			if strings.Contains(name, "-") {
+				continue // (a delimited name is looked up with its back-ticks: observed, not required)
+			}
+			e, err := fhirpath.Compile(ref)
+			if err != nil {
+				continue
+			}
+			o := safeEval(func() (system.Collection, error) { return e.Evaluate(in, evalopts.EnvVariable(name, system.String("v"))) })
+			c.Law(outTokens(o) == "ok:[S:x76]", "C17/variable-position", "a variable evaluates to the supplied value wherever it is referenced", ref+" with "+name+" = 'v'", canonOutcome(o, nil))
+		}
+		// select() hands on an item's error (other than "no such element" on a mixed collection) whatever the other items do
+		failOdd := func(c system.Collection, s *dtpb.String) (system.Collection, error) {
+			if s.GetValue() == "b" {
+				return nil, errors.New("boom")
+			}
+			return system.Collection{system.String(s.GetValue())}, nil
+		}
+		for _, src := range []string{"Patient.name.select(failOdd(given.first()))", "Patient.name.given.select(failOdd($this))", "Patient.name.select(failOdd(given.first())).count()", "Patient.name.where(failOdd(given.first()) = 'a')",
+			"Patient.name.exists(failOdd(given.first()) = 'a')", "Patient.name.all(failOdd(given.first()) = 'a')"} {
+			o := safeEval(func() (system.Collection, error) {
+				e, err := fhirpath.Compile(src, fhirpath.WithFunction("failOdd", failOdd))
+				if err != nil {
+					return nil, fmt.Errorf("compile: %w", err)
+				}
+				return e.Evaluate(in)
+			})
+			c.Observe("item error "+src, true)
+			c.Law(!o.Panicked && o.Err != nil && strings.Contains(o.Err.Error(), "boom"), "C17/custom-error", "the error a custom function returns is passed through", src+" (fails for the second item only)", canonOutcome(o, nil))
 		}
 	}
 	// one name, two registrations in the same Compile: rejected (the later one does not silently win), also
